@@ -31,7 +31,6 @@ def run(prog, chk):
     r033(prog, chk)
     r034(prog, chk)
     r035(prog, chk)
-    r036(prog, chk)
 
 
 # ----------------------------------------------------------------------------- R03.1
@@ -351,7 +350,7 @@ def r034(prog, chk):
     chk.minimum("R03.4", 5)
 
 
-# ----------------------------------------------------------------------------- R03.5
+# ----------------------------------------------------------------------------- R03.5 / R03.6
 def _bound_filter(dc: ast.DictComp):
     """For {k: v for k, v in X.items() if k OP C} return (OPclass, C, X-expr)."""
     if not isinstance(dc, ast.DictComp) or len(dc.generators) != 1:
@@ -370,26 +369,119 @@ def _bound_filter(dc: ast.DictComp):
     return type(op), r.value, g.iter
 
 
+class _Cmap:
+    """Abstract 'which part of the code-point mapping does this dict hold':
+    subsets of {LO (<= U+FFFF), HI (> U+FFFF)}."""
+
+    def __init__(self, prog, fi):
+        self.prog, self.fi = prog, fi
+        self.cfg = prog.cfg(fi)
+        self.hi_names = set()
+        self.bounds = []
+
+    def is_full_source(self, e) -> bool:
+        return isinstance(e, ast.Attribute) and e.attr == "unicodeToGlyphNameMapping"
+
+    def cov_expr(self, e, at, depth=0):
+        """Returns list of (coverage frozenset, defining cfg node or None)."""
+        if depth > 8:
+            return [(None, None)]
+        if self.is_full_source(e):
+            return [(frozenset({"LO", "HI"}), None)]
+        if isinstance(e, ast.DictComp):
+            b = _bound_filter(e)
+            if b is not None and (self.is_full_source(b[2].func.value) if isinstance(b[2], ast.Call) and isinstance(b[2].func, ast.Attribute) else False):
+                op, c, _ = b
+                self.bounds.append((op, c))
+                if op in (ast.Gt, ast.GtE):
+                    return [(frozenset({"HI"}), None)]
+                if op in (ast.LtE, ast.Lt):
+                    return [(frozenset({"LO"}), None)]
+            if len(e.generators) == 1 and not e.generators[0].ifs and isinstance(e.generators[0].iter, ast.Call) \
+                    and isinstance(e.generators[0].iter.func, ast.Attribute):
+                return self.cov_expr(e.generators[0].iter.func.value, at, depth + 1)
+            return [(None, None)]
+        if isinstance(e, ast.Call) and A.callee_name(e) in ("dict", "OrderedDict") and len(e.args) == 1 and not e.keywords:
+            return self.cov_expr(e.args[0], at, depth + 1)
+        if isinstance(e, ast.Call) and A.callee_name(e) == "copy" and isinstance(e.func, ast.Attribute) and not e.args:
+            return self.cov_expr(e.func.value, at, depth + 1)
+        if isinstance(e, ast.Dict) and all(k is None for k in e.keys) and e.values:
+            parts = [self.cov_expr(v, at, depth + 1) for v in e.values]
+            out = [(frozenset(), None)]
+            for alts in parts:
+                out = [((a[0] | b[0]) if a[0] is not None and b[0] is not None else None, a[1] or b[1]) for a in out for b in alts]
+            return out
+        if isinstance(e, ast.BinOp) and isinstance(e.op, ast.BitOr):
+            l, r = self.cov_expr(e.left, at, depth + 1), self.cov_expr(e.right, at, depth + 1)
+            return [((a[0] | b[0]) if a[0] is not None and b[0] is not None else None, a[1] or b[1]) for a in l for b in r]
+        if isinstance(e, ast.Name):
+            out = []
+            un = self.cfg.node_of(at)
+            for d in self.prog.reaching(self.fi, e.id, at):
+                v, how = d.element()
+                if v is None or how is not None:
+                    out.append((None, d.node))
+                    continue
+                if d.node >= 0 and un is not None and self.cfg.def_reaches_only_when_falsy(d, at):
+                    continue  # can only arrive here as an empty dict
+                for cov, _n in self.cov_expr(v, d.binder, depth + 1):
+                    if cov is not None:
+                        # X.update(Y) between the definition and the use, on every path
+                        for c in calls_named(self.fi, "update"):
+                            if isinstance(c.func.value, ast.Name) and c.func.value.id == e.id and len(c.args) == 1:
+                                cn = self.cfg.node_of(c)
+                                # every feasible path from the definition to the use performs the update
+                                # (paths on which the dict is known to be empty cannot reach a use that
+                                # is itself conditional on it being non-empty)
+                                if cn is not None and cn != un and d.node >= 0 and not self.cfg.exists_path_edges(
+                                        d.node, un, avoid_nodes=[cn], forbidden_edges=self.cfg.falsy_edges(e.id)):
+                                    for c2, _ in self.cov_expr(c.args[0], c, depth + 1):
+                                        cov = cov | c2 if c2 is not None else None
+                        if cov == frozenset({"HI"}):
+                            self.hi_names.add(e.id)
+                    out.append((cov, d.node))
+            return out or [(None, None)]
+        return [(None, None)]
+
+
 def r035(prog, chk):
     fi = prog.ix.get_method(BASE_OUTLINE, "setupTable_cmap", own=True)
-    cfg = prog.cfg(fi)
-    comps = {}
-    for n in A.body_nodes(fi.node):
-        if isinstance(n, ast.Assign) and isinstance(n.value, ast.DictComp) and len(n.targets) == 1 and isinstance(n.targets[0], ast.Name):
-            b = _bound_filter(n.value)
-            if b:
-                comps[n.targets[0].id] = (n, b)
-    hi = [(k, v) for k, v in comps.items() if v[1][0] in (ast.Gt, ast.GtE)]
-    lo = [(k, v) for k, v in comps.items() if v[1][0] in (ast.LtE, ast.Lt)]
-    if len(hi) != 1 or len(lo) != 1:
-        raise AnalysisError(f"cannot interpret {fi.short}: expected one '>' and one '<=' partition of the mapping")
-    (hname, (hnode, (hop, hconst, hiter))), (lname, (lnode, (lop, lconst, liter))) = hi[0], lo[0]
+    cm = _Cmap(prog, fi)
+    cfg = cm.cfg
+    # the name that holds the supplementary part decides which tables exist
+    hi_defs = [n for n in A.body_nodes(fi.node) if isinstance(n, ast.Assign) and isinstance(n.value, ast.DictComp)
+               and (_bound_filter(n.value) or (None,))[0] in (ast.Gt, ast.GtE) and isinstance(n.targets[0], ast.Name)]
+    if len(hi_defs) != 1:
+        raise AnalysisError(f"cannot interpret {fi.short}: expected one '> U+FFFF' partition of the mapping")
+    hname = hi_defs[0].targets[0].id
+    hop, hconst, _ = _bound_filter(hi_defs[0].value)
+    lo = [(_bound_filter(n.value)) for n in A.body_nodes(fi.node) if isinstance(n, ast.Assign) and isinstance(n.value, ast.DictComp)
+          and (_bound_filter(n.value) or (None,))[0] in (ast.LtE, ast.Lt)]
+    need(lo, f"cannot interpret {fi.short}: no '<= U+FFFF' partition")
+    lop, lconst, _ = lo[0]
     compl = (hop is ast.Gt and lop is ast.LtE) or (hop is ast.GtE and lop is ast.Lt)
-    chk.ob("R03.5", key(fi, "partition"), compl and hconst == lconst and ast.dump(hiter) == ast.dump(liter)
-           and (hconst if hop is ast.Gt else hconst - 1) == 0xFFFF, where(fi, hnode),
+    chk.ob("R03.5", key(fi, "partition"), compl and hconst == lconst and (hconst if hop is ast.Gt else hconst - 1) == 0xFFFF, where(fi, hi_defs[0]),
            detail=f"partition: k {hop.__name__} {hconst} / k {lop.__name__} {lconst} over the same mapping",
            message="the BMP / supplementary partition of the character map is not a complementary split at U+FFFF")
-    # subtable objects
+    falsy_hi = cfg.falsy_edges(hname)
+
+    def only_when_no_hi(defnode, use) -> bool:
+        """The definition reaches `use` only along paths on which the supplementary
+        dict is empty (so a BMP-only or full dict are the same thing)."""
+        un = cfg.node_of(use)
+        if defnode is None or un is None:
+            return False
+        fs_def = [c for c in conds(prog, fi, cfg.nodes[defnode].ast) if isinstance(c.test, ast.Name) and c.test.id == hname]
+        if fs_def and all(c.polarity is False for c in fs_def):
+            return True
+        # other definitions of the same local kill this one
+        others = []
+        a = cfg.nodes[defnode].ast
+        if isinstance(a, ast.Assign):
+            for nm in A.target_names(a.targets[0]):
+                others += [d.node for d in cfg.defs_of(nm) if d.node != defnode and d.node >= 0]
+        return not cfg.exists_path_edges(defnode, un, avoid_nodes=others, forbidden_edges=falsy_hi)
+
     objs = {}
     for n in A.body_nodes(fi.node):
         if isinstance(n, ast.Assign) and isinstance(n.value, ast.Call) and A.callee_name(n.value) in ("cmap_format_4", "cmap_format_12") \
@@ -400,45 +492,27 @@ def r035(prog, chk):
         if not (isinstance(t.value, ast.Name) and t.value.id in objs):
             continue
         fmt = objs[t.value.id]
+        covs = cm.cov_expr(v, st)
         if fmt == "cmap_format_4":
             n4 += 1
-            # every reaching definition of the value: the '<=' comprehension, or a full
-            # copy that is only taken when there is nothing above the BMP
-            ok = isinstance(v, ast.Name)
-            details = []
-            if ok:
-                for d in prog.reaching(fi, v.id, st):
-                    val, how = d.element()
-                    if d.binder is lnode:
-                        details.append("<= comprehension")
-                        continue
-                    g = [c for c in conds(prog, fi, d.binder) if isinstance(c.test, ast.Name) and c.test.id == hname]
-                    if g and all(c.polarity is False for c in g):
-                        details.append("full mapping, only when nothing is above the BMP")
-                        continue
-                    ok = False
-                    details.append(f"unexpected definition {T(d.binder, 60)}")
-            chk.ob("R03.5", key(fi, st), ok, where(fi, st), detail="; ".join(details),
-                   message="a 16-bit cmap subtable can receive code points above U+FFFF")
+            ok = all(c is not None and ("HI" not in c or only_when_no_hi(dn, st)) and "LO" in c for c, dn in covs)
+            chk.ob("R03.5", key(fi, st), ok, where(fi, st), detail=f"16-bit subtable holds {[sorted(c) if c is not None else '?' for c, _ in covs]} (HI only when there is none)",
+                   message="a 16-bit cmap subtable can receive code points above U+FFFF, or misses BMP mappings")
         else:
             n12 += 1
-            ok = isinstance(v, ast.Name) and v.id == hname
-            upd = [c for c in calls_named(fi, "update") if isinstance(c.func.value, ast.Name) and c.func.value.id == hname
-                   and c.args and isinstance(c.args[0], ast.Name) and c.args[0].id == lname]
-            ok_upd = bool(upd) and all(cfg.dominates(cfg.node_of(upd[0]), cfg.node_of(st)) for _ in [0])
-            chk.ob("R03.5", key(fi, st), ok and ok_upd, where(fi, st),
-                   detail=f"32-bit subtable gets the '>' mapping updated with the BMP mapping (update dominates: {ok_upd})",
-                   message="a 32-bit cmap subtable does not contain every BMP mapping")
+            ok = all(c == frozenset({"LO", "HI"}) for c, dn in covs)
+            chk.ob("R03.5", key(fi, st), ok, where(fi, st), detail=f"32-bit subtable holds {[sorted(c) if c is not None else '?' for c, _ in covs]}",
+                   message="a 32-bit cmap subtable does not contain every BMP and supplementary mapping")
             g = [c for c in conds(prog, fi, st) if isinstance(c.test, ast.Name) and c.test.id == hname and c.polarity is True]
             chk.ob("R03.5", key(fi, T(st) + "|guard"), bool(g), where(fi, st), detail="32-bit subtable only when something is above the BMP",
                    message="32-bit subtables are not conditional on the presence of supplementary code points")
     need(n4 >= 2 and n12 >= 2, f"cannot interpret {fi.short}: subtable assignments not found")
     chk.minimum("R03.5", 7)
+    r036(prog, chk, cm, only_when_no_hi)
 
 
-# ----------------------------------------------------------------------------- R03.6
-def r036(prog, chk):
-    fi = prog.ix.get_method(BASE_OUTLINE, "setupTable_cmap", own=True)
+def r036(prog, chk, cm, only_when_no_hi):
+    fi = cm.fi
     apps = [c for c in calls_named(fi, "append") if c.args and isinstance(c.args[0], ast.Tuple) and len(c.args[0].elts) == 2]
     need(len(apps) >= 2, f"cannot interpret {fi.short}: UVS tuples not found")
     seen_default = seen_nondefault = False
@@ -449,24 +523,37 @@ def r036(prog, chk):
             p = A.compare_parts(c.test)
             if p and isinstance(p[1], (ast.Eq, ast.NotEq)):
                 sides = [p[0], p[2]]
-                sub = [s for s in sides if isinstance(s, ast.Subscript) and ast.dump(s.slice) == ast.dump(val)]
-                nm = [s for s in sides if isinstance(s, ast.Name)]
-                if sub and nm:
+                look = []
+                for s_ in sides:
+                    if isinstance(s_, ast.Subscript) and ast.dump(s_.slice) == ast.dump(val):
+                        look.append((s_.value, True))
+                    elif isinstance(s_, ast.Call) and A.callee_name(s_) == "get" and s_.args and ast.dump(s_.args[0]) == ast.dump(val):
+                        look.append((s_.func.value, False))
+                nm = [s_ for s_ in sides if isinstance(s_, ast.Name)]
+                if look and nm:
                     equal = (isinstance(p[1], ast.Eq)) == (c.polarity is True)
-                    eqs.append((equal, nm[0].id))
+                    eqs.append((equal, nm[0].id, look[0][0], c))
         if A.is_const(gl, None):
-            ok = any(e for e, _ in eqs)
+            ok = any(e for e, _n, _m, _c in eqs)
             seen_default = seen_default or ok
             chk.ob("R03.6", key(fi, ap), ok, where(fi, ap), detail="default UVS (value, None) only when glyph == base mapping[value]",
                    message="a variation sequence is encoded as default although it does not name the base mapping's glyph")
         else:
-            ok = any((not e) and n == getattr(gl, "id", None) for e, n in eqs)
+            ok = any((not e) and n == getattr(gl, "id", None) for e, n, _m, _c in eqs)
             seen_nondefault = seen_nondefault or ok
             chk.ob("R03.6", key(fi, ap), ok, where(fi, ap), detail="non-default UVS (value, glyph) only when glyph != base mapping[value]",
                    message="a variation sequence naming the base glyph is encoded as non-default (or with the wrong glyph)")
+        # the mapping consulted must be the complete code-point mapping
+        for e, n, mexpr, c in eqs[:1]:
+            covs = cm.cov_expr(mexpr, c.test)
+            okc = all(cv is not None and "LO" in cv and ("HI" in cv or only_when_no_hi(dn, c.test)) for cv, dn in covs)
+            chk.ob("R03.6", f"{fi.short}|{A.keytext(fi.node, ap)}|complete base mapping", okc, where(fi, c.test),
+                   detail=f"base mapping consulted holds {[sorted(cv) if cv is not None else '?' for cv, _ in covs]}",
+                   message="the default / non-default decision consults a dict that lacks part of the code-point mapping "
+                           "(a sequence on a missing base is then always written as non-default)")
     chk.ob("R03.6", key(fi, "both-branches"), seen_default and seen_nondefault, where(fi), detail="both encodings present",
            message="one of the two UVS encodings is missing")
-    chk.minimum("R03.6", 3)
+    chk.minimum("R03.6", 5)
 
 
 # ------------------------------------------------------------------- self-validation corpus
@@ -507,6 +594,8 @@ MUTANTS = [
       "nonBMP.update(mapping)", "pass", rule="R03.5"),
     M("format 4 subtable receives the full mapping", "ufo2ft/outlineCompiler.py", "BaseOutlineCompiler.setupTable_cmap",
       "cmap4_3_1.cmap = mapping", "cmap4_3_1.cmap = dict(self.unicodeToGlyphNameMapping)", rule="R03.5"),
+    M("UVS decision consults the supplementary-only dict (two cooperating edits, cf. seeded/C03a)", "ufo2ft/outlineCompiler.py", "BaseOutlineCompiler.setupTable_cmap",
+      "nonBMP.update(mapping)\ncmap12_0_4 = cmap_format_12(12)", "cmap12_0_4 = cmap_format_12(12)\nnonBMP12 = {**mapping, **nonBMP}", rule="R03"),
     M("UVS default/non-default inverted", "ufo2ft/outlineCompiler.py", "BaseOutlineCompiler.setupTable_cmap",
       "glyphName == mapping[value]", "glyphName != mapping[value]", rule="R03.6"),
     # equivalent edits
@@ -515,6 +604,10 @@ MUTANTS = [
       "if uni in mapping:\n    raise InvalidFontData('duplicate')\nmapping[uni] = glyphName", kind="equiv"),
     M("discard instead of remove", "ufo2ft/util.py", "makeOfficialGlyphOrder",
       "names.remove(name)", "names.discard(name)", kind="equiv"),
+    M("each cmap subtable gets its own dict", "ufo2ft/outlineCompiler.py", "BaseOutlineCompiler.setupTable_cmap",
+      "cmap4_0_3.cmap = mapping", "cmap4_0_3.cmap = dict(mapping)", kind="equiv"),
+    M("32-bit mapping built by merging instead of update", "ufo2ft/outlineCompiler.py", "BaseOutlineCompiler.setupTable_cmap",
+      "nonBMP.update(mapping)", "nonBMP = {**mapping, **nonBMP}", kind="equiv"),
     M("membership test inverted with nested if", "ufo2ft/util.py", "makeOfficialGlyphOrder",
       "if name not in names:\n    continue\nnames.remove(name)\norder.append(name)",
       "if name in names:\n    names.remove(name)\n    order.append(name)", kind="equiv"),
